@@ -821,15 +821,42 @@ func (fr *Frame) modularCall(x *ssa.Call, callee *ssa.Function, ord int) {
 	pre := fr.st
 	tag := fmt.Sprintf("%s#%d", name, ord)
 	fr.callAsserts(x, name, ord)
+	var ghostBound, ghostNames []string
 	if cc != nil {
 		for _, gp := range cc.GhostParams {
 			tv, ok := fr.topFrame.specVars[gp.Name]
 			if !ok {
-				vc.addErr("%s: call of %s needs a ghost value for %q (declare a ghostparam or ghostlet of that name in the caller)", fr.label, name, gp.Name)
+				// the caller gives no value: the callee's contract holds for every value of its ghost parameter, so its
+				// postconditions are assumed universally quantified over it (and a precondition that mentions it must
+				// hold for every value)
+				ty, err := fr.e.p.u.tyOfTypeExpr(gp.Ty, fr.e.p.cs)
+				if err != nil {
+					vc.addErr("%s: ghostparam %s of %s: %v", fr.label, gp.Name, name, err)
+					continue
+				}
+				bn := fmt.Sprintf("%s$%d", gp.Name, vc.nextBound())
+				vars[gp.Name] = TV{bn, ty}
+				ghostBound = append(ghostBound, "("+bn+" "+ty.Sort()+")")
+				ghostNames = append(ghostNames, bn)
 				continue
 			}
 			vars[gp.Name] = tv
 		}
+	}
+	quantify := func(f string) string {
+		if len(ghostBound) == 0 {
+			return f
+		}
+		uses := false
+		for _, n := range ghostNames {
+			if strings.Contains(f, n) {
+				uses = true
+			}
+		}
+		if !uses {
+			return f
+		}
+		return "(forall (" + strings.Join(ghostBound, " ") + ") " + f + ")"
 	}
 	// 1. preconditions
 	if cc != nil {
@@ -844,12 +871,12 @@ func (fr *Frame) modularCall(x *ssa.Call, callee *ssa.Function, ord int) {
 			if lbl == "" {
 				lbl = fmt.Sprint(i)
 			}
-			fr.oblige("requires", fmt.Sprintf("pre:%s:%s", tag, lbl), c.Props, tv.T, c.Src, x.Pos(), "")
+			fr.oblige("requires", fmt.Sprintf("pre:%s:%s", tag, lbl), c.Props, quantify(tv.T), c.Src, x.Pos(), "")
 		}
 		var pres []string
 		for _, c := range cc.Requires {
 			if tv, err := env.tr(c.E); err == nil {
-				pres = append(pres, tv.T)
+				pres = append(pres, quantify(tv.T))
 			}
 		}
 		fr.assumeHere(and(pres...), "pre")
@@ -955,7 +982,7 @@ func (fr *Frame) modularCall(x *ssa.Call, callee *ssa.Function, ord int) {
 				vc.addErr("%s:%d: ensures (at call in %s): %v", c.File, c.Line, fr.label, err)
 				continue
 			}
-			facts = append(facts, tv.T)
+			facts = append(facts, quantify(tv.T))
 			if c.Kind == "defines" {
 				vc.note("definition by the code (assumed, justified by purity C13): " + name + ": " + c.Src)
 			}
